@@ -231,8 +231,29 @@ def random_walks(seed, count, depth, ops=("begin", "commit", "cancel"), read_car
                 p = {"o": "status", "uid": [rnd.randrange(256) for _ in range(rnd.randrange(0, 12))], "subs": []}
             if rnd.random() < 0.25:
                 p["inter"] = rnd.randrange(1, 3)
+            # the environment at large: what the terminal displays and how often, how long it takes (always well inside the per-packet
+            # timeout), what else its status information says, receipt lines - none of it changes what the operation means
+            if rnd.random() < 0.15:
+                p["inter"] = rnd.choice([1, 2, 5, 19, 20, 21, 40])
+            if rnd.random() < 0.2:
+                p["inter_status"] = rnd.randrange(256)
+            if rnd.random() < 0.15:
+                n = p.get("inter", 0) + 3
+                p["delays"] = [rnd.choice([0, 1, 999, 5000, 14000]) for _ in range(n)]
+            if p["o"] == "ok" and rnd.random() < 0.2:
+                p["status"]["currency"] = digits(rnd.choice([978, 826, 752, 0, 9999]))
+            if rnd.random() < 0.1:
+                p["status_result"] = rnd.choice([0, 0, 5, 0x6c, 255])
+            if p["o"] == "abort" and rnd.random() < 0.2:
+                p["abort_receipt"] = rnd.choice([65535, 1, 4711, 9999])
+            if rnd.random() < 0.1:
+                p["lines"] = rnd.randrange(1, 4)
             plan.append(p)
-        out.append({"config": cfg, "term": {"dangling": rnd.choice([[], [], [77], [9999], [5000]]), "next_receipt": rnd.choice([1, 1, 9998])},
+        for c in calls:
+            if rnd.random() < 0.05:
+                c["idle_ms"] = rnd.choice([1000, 299000, 301000, 3600000])
+        out.append({"config": cfg, "term": {"dangling": rnd.choice([[], [], [77], [9999], [5000]]), "next_receipt": rnd.choice([1, 1, 9998]),
+                                            "chunk": rnd.choice([0, 0, 0, 1, 7, 64]), "wchunk": rnd.choice([0, 0, 0, 1, 2])},
                     "calls": calls, "plan": {"exchanges": plan}})
     return out
 
